@@ -455,10 +455,11 @@ theorem createOps_apply_any (d : Disk) (nl : Nat) :
     simp [createOps, h, Disk.applyAll, Disk.apply, Disk.set, Disk.get, splice, List.drop_of_length_le, ht]
 
 /-- `Sync`: everything buffered ends up in the file as whole blocks -/
-theorem syncW_spec (c : Cfg) (mk : Mk) (hmk : MkOk mk) (d : Disk) (w : WSt) (f : List Cell) (h : WInv d w f) :
+theorem syncW_spec (c : Cfg) (mk : Mk) (hmk : MkOk mk) (d : Disk) (w : WSt) (f : List Cell) (h : WInv d w f)
+    (hlen : w.buf.length ≤ maxEnts) :
     ∃ nbs, entsOf nbs = w.buf ∧ (∀ b ∈ nbs, b.WF) ∧
       (d.applyAll (syncW c mk w).2).get w.path = some (f ++ render nbs) := by
-  obtain ⟨nbs, he, _, hp⟩ := flushW_spec mk hmk d w f h
+  obtain ⟨nbs, he, _, hp⟩ := flushW_spec mk hmk d w f h hlen
   refine ⟨nbs, he, hp.wf, ?_⟩
   simp only [syncW, Disk.applyAll_append, Disk.applyAll_cons, Disk.applyAll_nil]
   have hno := header_rewrite_noop _ _ _ hp.inv
